@@ -89,7 +89,24 @@ pub fn batch_cases(seed: u64, n: usize) -> Vec<Case> {
         if c.bytes.len() > 8000 {
             c.bytes.truncate(8000);
         }
-        if i % 16 == 12 || i == 4 {
+        v.push(c);
+        if i % 5 == 4 {
+            // the same content under one changed setting: another launch may meet them in another order
+            let mut sib = v[v.len() - 1].clone();
+            match r.below(3) {
+                0 => sib.sett.lthr = *r.pick(&[0.7f32, 0.0, 0.4]),
+                1 => sib.sett.thr = *r.pick(&[0.45f32, 0.1, 0.3]),
+                _ => sib.sett.fb = !sib.sett.fb,
+            }
+            sib.tag = format!("sibling-settings:{}", sib.tag);
+            v.push(sib);
+        }
+    }
+    // appended (never in place of a generated case, whose neighbours may be its siblings):
+    for x in 0..(n / 16 + 2) {
+        let i = if x == 0 { 4 } else { 16 * x - 4 };
+        let mut c = Case { bytes: vec![], sett: Sett::default(), tag: String::new() };
+        {
             // inputs that begin with a Unicode signature of *any* scheme (also those the library has no decoder for) or
             // with one signature followed by bytes that make it the beginning of a longer one: which signature an
             // input "has" must be a function of its bytes
@@ -127,16 +144,19 @@ pub fn batch_cases(seed: u64, n: usize) -> Vec<Case> {
             c.tag = "foreign-signature".into();
         }
         v.push(c);
-        if i % 5 == 4 {
-            // the same content under one changed setting: another launch may meet them in another order
-            let mut sib = v[v.len() - 1].clone();
-            match r.below(3) {
-                0 => sib.sett.lthr = *r.pick(&[0.7f32, 0.0, 0.4]),
-                1 => sib.sett.thr = *r.pick(&[0.45f32, 0.1, 0.3]),
-                _ => sib.sett.fb = !sib.sett.fb,
-            }
-            sib.tag = format!("sibling-settings:{}", sib.tag);
-            v.push(sib);
+    }
+    // two inputs above the 1,000,000-byte limit that agree in length, in their first and in their last kilobytes and differ
+    // only in the middle (and a third that differs in length by one): whatever a detection keeps about a large payload must
+    // not answer for another one – launches meet them in different orders
+    {
+        let head: Vec<u8> = b"Section 1. General provisions of the agreement between the parties. ".iter().cycle().take(8192).cloned().collect();
+        let tail: Vec<u8> = b"End of document. Signed and sealed on the date written above. ".iter().cycle().take(8192).cloned().collect();
+        for (k, filler) in [&b"alpha beta gamma delta "[..], &b"one two three four five "[..], &b"alpha beta gamma delta "[..]].iter().enumerate() {
+            let total = if k == 2 { 1_000_101 } else { 1_000_100 };
+            let mut b = head.clone();
+            b.extend(filler.iter().cycle().take(total - head.len() - tail.len()));
+            b.extend_from_slice(&tail);
+            v.push(Case { bytes: b, sett: Sett::default(), tag: format!("nomodel:large-same-head-and-tail:{}", k) });
         }
     }
     // a stateful decoder between calls: well-formed ISO-2022-JP, a text broken inside a shifted run, the
@@ -197,7 +217,7 @@ pub fn run(thorough: bool, seed: u64, _replay: Option<String>) -> Report {
             rep.fail("oracle", "C03:repetition-differs-in-process", &format!("first {} || again {} || after flush {}", first[i], again, cold), &c.bytes, Some(&c.sett), &c.tag);
         }
         // the model is a function: it must equal the implementation bit for bit
-        if i % 2 == 0 || thorough {
+        if (i % 2 == 0 || thorough) && !c.tag.starts_with("nomodel:") {
             let model = model_detect(&mut drv, &c.bytes, &c.sett);
             rep.t3_compared += 1;
             if model.outcome.show() != first[i] {
